@@ -199,14 +199,13 @@ ELValid(c) ==
   /\ (c.site = "mapres" => c.pre \in ELFnPres)                       \* the native runs the literal
   /\ (c.site = "throwstmt" \/ c.pre \in ELLoopPres => c.stk = "expr") \* the statement kind is fixed by the site / the loop
   /\ (c.site = "throwstmt" => c.pre \notin ELLoopPres)
-\* quick: every (pre, site) pair twice (expression statement at script level; another statement kind in a function),
-\* every (pre, statement kind, position) for one site, every (pre, position) for a second one
+\* quick: every (pre, site) pair as an expression statement at script level; two sites (one of them runs the literal) with every
+\* pre on a diagonal of (statement kind, position) that contains every kind and every position; every loop pre at every position
+ELDiag(c) == <<c.stk, c.pos>> \in {<<"varinit", "fn">>, <<"ret", "arrow">>, <<"logarg", "cb">>, <<"ifcond", "infn">>}
 ELQuickSel(c) ==
   \/ (c.stk = "expr" /\ c.pos = "top")
-  \/ (c.stk = (IF c.site \in {"nullmember", "callnonfn", "mapres"} THEN "varinit" ELSE IF c.site \in {"unknownid", "masgnull"} THEN "ret" ELSE "logarg")
-      /\ c.pos = (IF c.pre \in {"fn", "arrow", "getter"} THEN "fn" ELSE IF c.pre \in {"nfn", "arrow2", "setter"} THEN "arrow" ELSE "cb"))
-  \/ (c.site = "methundef" /\ c.pre \in {"none", "fn", "arrow", "getter"})
-  \/ (c.site = "unknownid" /\ c.stk = "expr")
+  \/ (c.site \in {"methundef", "mapres"} /\ ELDiag(c))
+  \/ (c.pre \in ELLoopPres /\ c.site = "nullmember")
 ELCases == {c \in ELAll : ELValid(c) /\ (~Quick \/ ELQuickSel(c))}
 
 \* ======================= enumeration =================================================================
